@@ -181,9 +181,12 @@ def model_check_codec(chk: Check, cfg: str, workers: int = 16, timeout: int = 30
 def model_check_encoder_machine(chk: Check) -> None:
     """The operational encoder (staging buffers, failure at any sink write) refines the definitional
     codec over the shape universe; the two non-vacuity probes must be violated."""
-    res = tlc.run_tlc("MC_EncoderMachine", cfg="MC_EncoderMachine.cfg", workers=16, timeout=3 * 3600, xmx="12g")
+    res = tlc.run_tlc("MC_EncoderMachine", cfg="MC_EncoderMachine.cfg", workers=16, timeout=3 * 3600, xmx="12g",
+                      coverage=True)
     if not tlc.tlc_ok(res):
         raise Machinery(f"MC_EncoderMachine failed:\n{res['out'][-2500:]}")
+    tlc.require_actions(res, ["StepExpand", "StepWrite", "StepOpenSec", "StepOpenFld", "StepCloseFld", "StepCloseSec",
+                              "Finish"], "MC_EncoderMachine")
     chk.add_tlc("MC_EncoderMachine", res)
     for probe in ("NeverStages", "NeverFails"):
         r = tlc.run_tlc("MC_EncoderMachine", cfg=f"MC_EncoderMachine_probe_{probe}.cfg", workers=8, timeout=3000, xmx="8g")
@@ -195,9 +198,10 @@ def model_check_machine(chk: Check, thorough: bool) -> None:
     """TotalDecoder: the operational decoder machine on every byte string up to a bound; the three
     non-vacuity probes must each be violated."""
     cfg = "MC_CodecMachine_thorough.cfg" if thorough else "MC_CodecMachine_quick.cfg"
-    res = tlc.run_tlc("MC_CodecMachine", cfg=cfg, workers=16, timeout=4 * 3600, xmx="16g")
+    res = tlc.run_tlc("MC_CodecMachine", cfg=cfg, workers=16, timeout=4 * 3600, xmx="16g", coverage=True)
     if not tlc.tlc_ok(res):
         raise Machinery(f"MC_CodecMachine/{cfg} failed:\n{res['out'][-2500:]}")
+    tlc.require_actions(res, ["Step", "Return"], f"MC_CodecMachine/{cfg}")
     chk.add_tlc(f"MC_CodecMachine/{cfg}", res)
     for probe in ("NeverReturns", "NeverSkipsUnknownTag", "NeverLenient"):
         r = tlc.run_tlc("MC_CodecMachine", cfg=f"MC_CodecMachine_probe_{probe}.cfg", workers=8, timeout=3000, xmx="8g")
